@@ -449,22 +449,28 @@ class ClusterSuite(Suite):
                         now += 5
                         do(('ATick', i, now, quiet))
                 progress = True
-                while progress:
+                budget = 400        # a round that never settles (messages keep producing messages) is cut short:
+                while progress and budget > 0:      # the case then ends non-converged
+                    budget -= 1
                     progress = False
                     for i in members:
                         if not cl.up[i]:
                             continue
-                        while cl.pending[i]:
+                        steps = 0
+                        while cl.pending[i] and steps < 200:
                             now += 1
                             do(('AHandshake', i, now))
                             progress = True
-                        while cl.inbox[i]:
+                            steps += 1
+                        while cl.inbox[i] and steps < 400:
                             do(('ANotify', i, now, quiet))
                             progress = True
+                            steps += 1
                         for j in members:
-                            while cl.chan.get((j, i)):
+                            while cl.chan.get((j, i)) and steps < 600:
                                 do(('ADeliver', i, j, now, quiet))
                                 progress = True
+                                steps += 1
         except Exception:
             pass
 
@@ -482,7 +488,7 @@ class ClusterSuite(Suite):
                     (a[0] in ('ATick', 'ANotify', 'ADeliver') and [tuple(o) for o in a[-1]] != quiet):
                 split = k + 1
         out = []
-        for cut in list_cuts(acts[:split]):
+        for cut in list_cuts(acts[:split])[:24]:      # each candidate is replayed on a real cluster: keep it short
             self.ensure_clock()
             svenv.CLOCK.now = 1000
             cl = RealCluster(self, cfg, members)
